@@ -14,9 +14,9 @@
 /****************************************************************************/
 /* tables */
 
-static long tab_cmp(const char *only, const char *name, long idx, const char *idxtxt, unsigned got, unsigned want, long *bad)
+/* compare one entry; returns 1 (entries compared), bumps *bad on a mismatch */
+static long tab_cmp(const char *name, const char *idxtxt, unsigned got, unsigned want, long *bad)
 {
-	(void)idx;
 	if (got != want) {
 		char key[96], rp[96];
 		snprintf(key, sizeof(key), "C02/tables/%s", name);
@@ -24,7 +24,6 @@ static long tab_cmp(const char *only, const char *name, long idx, const char *id
 		fail(key, rp, "%s%s is 0x%02x, definition gives 0x%02x", name, idxtxt, got, want);
 		++*bad;
 	}
-	(void)only;
 	return 1;
 }
 
@@ -41,14 +40,14 @@ static int cmd_tables(void)
 	for (int a = 0; a < 256; ++a)
 		for (int b = 0; b < 256; ++b) {
 			snprintf(ix, sizeof(ix), "[%d][%d]", a, b);
-			n += tab_cmp(only, tn, 0, ix, raid_gfmul[a][b], vp_gfmul(a, b), &bad);
+			n += tab_cmp(tn, ix, raid_gfmul[a][b], vp_gfmul(a, b), &bad);
 		}
 	TABLE_END
 
 	TABLE_BEGIN("raid_gfexp")
 	for (int a = 0; a < 256; ++a) {
 		snprintf(ix, sizeof(ix), "[%d]", a);
-		n += tab_cmp(only, tn, 0, ix, raid_gfexp[a], vp_gfpow(2, a), &bad);
+		n += tab_cmp(tn, ix, raid_gfexp[a], vp_gfpow(2, a), &bad);
 	}
 	TABLE_END
 
@@ -57,7 +56,7 @@ static int cmd_tables(void)
 	pad = 1;
 	for (int a = 1; a < 256; ++a) {
 		snprintf(ix, sizeof(ix), "[%d]", a);
-		n += tab_cmp(only, tn, 0, ix, raid_gfinv[a], vp_gfinv(a), &bad);
+		n += tab_cmp(tn, ix, raid_gfinv[a], vp_gfinv(a), &bad);
 		/* and from the definition of an inverse, independent of vp_gfinv */
 		if (vp_gfmul(a, raid_gfinv[a]) != 1) {
 			fail("C02/tables/raid_gfinv", "cmd=tables table=raid_gfinv", "raid_gfinv[%d]=0x%02x: a*inv(a) != 1", a, raid_gfinv[a]);
@@ -72,7 +71,7 @@ static int cmd_tables(void)
 	for (int j = 0; j < 3; ++j)
 		for (int i = 0; i < RAID_DATA_MAX; ++i) {
 			snprintf(ix, sizeof(ix), "[%d][%d]", j, i);
-			n += tab_cmp(only, tn, 0, ix, raid_gfvandermonde[j][i], REF_V[j][i], &bad);
+			n += tab_cmp(tn, ix, raid_gfvandermonde[j][i], REF_V[j][i], &bad);
 		}
 	TABLE_END
 
@@ -81,7 +80,7 @@ static int cmd_tables(void)
 	for (int j = 0; j < 6; ++j)
 		for (int i = 0; i < RAID_DATA_MAX; ++i) {
 			snprintf(ix, sizeof(ix), "[%d][%d]", j, i);
-			n += tab_cmp(only, tn, 0, ix, raid_gfcauchy[j][i], REF_C[j][i], &bad);
+			n += tab_cmp(tn, ix, raid_gfcauchy[j][i], REF_C[j][i], &bad);
 		}
 	TABLE_END
 
@@ -93,7 +92,7 @@ static int cmd_tables(void)
 			for (int h = 0; h < 2; ++h)
 				for (int k = 0; k < 16; ++k) {
 					snprintf(ix, sizeof(ix), "[%d][%d][%d][%d]", i, j, h, k);
-					n += tab_cmp(only, tn, 0, ix, raid_gfcauchypshufb[i][j][h][k],
+					n += tab_cmp(tn, ix, raid_gfcauchypshufb[i][j][h][k],
 						vp_gfmul(REF_C[j + 2][i], h ? k << 4 : k), &bad);
 				}
 	TABLE_END
@@ -103,7 +102,7 @@ static int cmd_tables(void)
 		for (int h = 0; h < 2; ++h)
 			for (int k = 0; k < 16; ++k) {
 				snprintf(ix, sizeof(ix), "[%d][%d][%d]", c, h, k);
-				n += tab_cmp(only, tn, 0, ix, raid_gfmulpshufb[c][h][k], vp_gfmul(c, h ? k << 4 : k), &bad);
+				n += tab_cmp(tn, ix, raid_gfmulpshufb[c][h][k], vp_gfmul(c, h ? k << 4 : k), &bad);
 			}
 	TABLE_END
 #endif
